@@ -71,7 +71,7 @@ CTOR = {
 
 def make_trans(cls, variant, tree):
     """Instantiate; AdjointTransformation subclasses need active variables of the tree."""
-    from psyclone.psyad.transformations import AdjointTransformation
+    from psyclone.psyad.transformations.adjoint_trans import AdjointTransformation
     if issubclass(cls, AdjointTransformation):
         from psyclone.psyir.nodes import Routine
         from psyclone.psyir.symbols import DataSymbol, ScalarType, ArrayType
